@@ -54,12 +54,46 @@ func ruleR17f(c *Ctx) {
 		c.undecided(rule, "anchor:UsingOffset-query", fn.Pos(), "the query parameter is not spilled to a local")
 		return
 	}
-	var ival func(v ssa.Value, depth int) (aff, bool)
-	ival = func(v ssa.Value, depth int) (aff, bool) {
+	var ivalE func(v ssa.Value, depth int, env map[*ssa.Parameter]aff) (aff, bool)
+	ival := func(v ssa.Value, depth int) (aff, bool) { return ivalE(v, depth, nil) }
+	ivalE = func(v ssa.Value, depth int, env map[*ssa.Parameter]aff) (aff, bool) {
+		ival := func(v ssa.Value, depth int) (aff, bool) { return ivalE(v, depth, env) }
 		if depth > 10 {
 			return nil, false
 		}
 		switch x := v.(type) {
+		case *ssa.Parameter:
+			if a, ok := env[x]; ok {
+				return a, true
+			}
+		case *ssa.Call:
+			// a helper of the package computing an offset from the two fields (`previousOffset(offset, pageSize)`)
+			g := x.Call.StaticCallee()
+			if g == nil || fnPkgPath(origin(g)) != fnPkgPath(origin(fn)) || len(g.Blocks) == 0 || depth > 4 {
+				return nil, false
+			}
+			ne := map[*ssa.Parameter]aff{}
+			for i, p := range g.Params {
+				if i >= len(x.Call.Args) {
+					return nil, false
+				}
+				a, ok := ival(x.Call.Args[i], depth+1)
+				if !ok {
+					return nil, false
+				}
+				ne[p] = a
+			}
+			var ret *ssa.Return
+			n := 0
+			for _, b := range g.Blocks {
+				if r, ok := b.Instrs[len(b.Instrs)-1].(*ssa.Return); ok {
+					ret, n = r, n+1
+				}
+			}
+			if n != 1 || len(ret.Results) != 1 {
+				return nil, false
+			}
+			return ivalE(ret.Results[0], depth+1, ne)
 		case *ssa.Const:
 			if n, ok := constInt(x); ok {
 				if n == 0 {
